@@ -37,6 +37,14 @@ def one_input(args):
     inp = pipecases.make_input(rng, n_refs=3, n_qry=9, ref_labels=(60, 130), small_ids=(idx % 2 == 1),
                                kinds=["split", "noisy", "split", "mirror", "dropped", "chimeric", "partial", "exact", "junk"],
                                short_contigs=1)    # + a contig shorter than most molecules, with a molecule of its own
+    dup = None
+    if idx % 2 == 0:
+        # a second copy of the first reference under the largest id (a contig listed twice / a haplotype copy): every
+        # molecule of that reference then has two equally good placements, and the lower id has to win whatever the
+        # order in which the references are listed in the file or after -rId
+        src = inp["refs"][0]
+        dup = dict(src, id=max(r["id"] for r in inp["refs"]) + 3, x=list(src["x"]), bp=list(src["bp"]))
+        inp["refs"].append(dup)
     extra = pipe_common.PARAM_VECTORS[idx % len(pipe_common.PARAM_VECTORS)]
     mode = ["all", "best", "joined", "separate", "best"][idx % 5]
     wd = os.path.join(workroot, f"c10-{os.getpid()}-{idx}")
@@ -77,6 +85,10 @@ def one_input(args):
         # V4/V5: -qId/-rId vs physically restricted files (XmapEntryID included)
         qsel = sorted(rng.sample(qids, 4))
         rsel = sorted(rng.sample(rids, 2))
+        if dup is not None:
+            rsel = [dup["id"], inp["refs"][0]["id"]]       # both copies, given in descending order on the command line
+        else:
+            rng.shuffle(rsel)                              # the order of the ids after -rId must not matter
         v4 = pipecases.run_once(wd, rp, qp, "v4", mode, extra, qids=qsel, rids=rsel)
         rp5, qp5 = pipecases.write_input(wd, inp, "v5", qsel=set(qsel), rsel=set(rsel))
         v5 = pipecases.run_once(wd, rp5, qp5, "v5", mode, extra)
